@@ -58,6 +58,7 @@ fn main() {
         let text = std::fs::read_to_string(&path).expect("case file");
         ctx.case = Some(serde_json::from_str(&text).expect("case json"));
     }
+    ctx.out_path = out.clone();
     if !rpki_verif::dispatch(&mut ctx) {
         eprintln!("unknown property {}", id);
         std::process::exit(2);
